@@ -629,12 +629,14 @@ Fixpoint expire_gens (t : N) (gs : list gen) (bs : list N) : list gen :=
   | gs', _ => gs'
   end.
 
-(* fire everything due at instant t, then let the requests run *)
-Definition fire_at (w : world) (t : N) : world :=
+(* fire everything due at instant t ... *)
+Definition fire_only (w : world) (t : N) : world :=
   let wg' := mk_wg (groups (wwg w)) (expire_gens t (gens (wwg w)) (born w)) in
   let rs := map (fun q => if q_arrived q && (q_deadline q <=? t)%N then set_ctx CDeadline q else q) (reqs w) in
-  let w' := mk_world t wg' (born w) (st_pos w) (st_fq w) (st_fz w) rs (calls w) in
-  quiesce (qfuel w') w'.
+  mk_world t wg' (born w) (st_pos w) (st_fq w) (st_fz w) rs (calls w).
+(* ... then let the requests run *)
+Definition fire_at (w : world) (t : N) : world :=
+  let w' := fire_only w t in quiesce (qfuel w') w'.
 
 Fixpoint advance (fuel : nat) (w : world) (t : N) : world :=
   match fuel with
@@ -673,6 +675,145 @@ Definition observe (q : preq) : N * N * bool :=
   (N.of_nat (length (r_emits (q_st q))),
    match r_emits (q_st q) with r :: _ => reply_class r | [] => 0%N end,
    q_called q).
+
+
+(* ------------------------------------------------------------------ *)
+(** * 6. The UDP engine's dispatch in front of the world (server/udp_engine.go, strict.go)
+
+   A datagram takes a slab against the admission cap (shed when the cap is reached), is
+   handed to an idle pool worker, else parked in the bounded ready queue, else served on an
+   overflow goroutine.  Whoever starts serving it first checks the budget anchored at the
+   read time (ServeRaw / ServeRawInline / ServeRawReplay / serveMsgBy: expired => return,
+   no reply).  A pool worker is busy until the request it serves ends - a follower waiting
+   in the dedup loop keeps its worker.  Every terminal returns the slab. *)
+
+Inductive place := PlNone | PlQueued | PlWorker | PlOverflow | PlOwn | PlGone.
+Definition place_eqb (a b : place) : bool :=
+  match a, b with
+  | PlNone, PlNone | PlQueued, PlQueued | PlWorker, PlWorker | PlOverflow, PlOverflow
+  | PlOwn, PlOwn | PlGone, PlGone => true
+  | _, _ => false
+  end.
+
+Record engine := mk_engine {
+  e_free : nat;            (* idle pool workers *)
+  e_queue : list nat;      (* ready queue, FIFO *)
+  e_qcap : nat;
+  e_leased : nat;
+  e_cap : nat;
+  e_place : list place }.
+
+(* how request i reached the server: 0 = ServeMsg on the caller's goroutine (DoH/DoQ-like),
+   1 = datagram through the ring, 2 = datagram through the reader's inline pass first *)
+Record sworld := mk_sworld { s_w : world; s_e : engine; s_path : list N }.
+
+Definition set_place (e : engine) (i : nat) (p : place) : engine :=
+  mk_engine (e_free e) (e_queue e) (e_qcap e) (e_leased e) (e_cap e) (upd (e_place e) i (fun _ => p)).
+Definition place_of (e : engine) (i : nat) : place := nth i (e_place e) PlNone.
+Definition path_of (s : sworld) (i : nat) : N := nth i (s_path s) 0%N.
+
+Definition req_deadline (w : world) (i : nat) : N :=
+  match nth_error (reqs w) i with Some q => q_deadline q | None => 0%N end.
+Definition req_ended (w : world) (i : nat) : bool :=
+  match nth_error (reqs w) i with Some q => is_end (q_st q) | None => true end.
+
+(* the first statement of every serve entry: an exhausted budget is dropped in silence *)
+Definition start_serving (s : sworld) (i : nat) (p : place) : sworld :=
+  let w := s_w s in
+  if (req_deadline w i <=? now w)%N
+  then
+    (* dropped: the slab goes back, a pool worker is free again *)
+    let e := s_e s in
+    let e1 := mk_engine (match p with PlWorker => S (e_free e) | _ => e_free e end) (e_queue e) (e_qcap e)
+                        (match p with PlOwn => e_leased e | _ => pred (e_leased e) end) (e_cap e) (e_place e) in
+    mk_sworld w (set_place e1 i PlGone) (s_path s)
+  else mk_sworld (set_req w i (set_arrived (now w))) (set_place (s_e s) i p) (s_path s).
+
+Definition dispatch (s : sworld) (i : nat) : sworld :=
+  let e := s_e s in
+  match e_free e with
+  | S f => start_serving (mk_sworld (s_w s) (mk_engine f (e_queue e) (e_qcap e) (e_leased e) (e_cap e) (e_place e)) (s_path s)) i PlWorker
+  | O =>
+      if (length (e_queue e) <? e_qcap e)%nat
+      then mk_sworld (s_w s) (set_place (mk_engine 0 (e_queue e ++ [i]) (e_qcap e) (e_leased e) (e_cap e) (e_place e)) i PlQueued) (s_path s)
+      else start_serving s i PlOverflow
+  end.
+
+Definition s_arrive (s : sworld) (i : nat) : sworld :=
+  let e := s_e s in
+  if (path_of s i =? 0)%N then start_serving s i PlOwn
+  else if (e_cap e <=? e_leased e)%nat then mk_sworld (s_w s) (set_place e i PlGone) (s_path s)   (* shed *)
+  else
+    let s1 := mk_sworld (s_w s) (mk_engine (e_free e) (e_queue e) (e_qcap e) (S (e_leased e)) (e_cap e) (e_place e)) (s_path s) in
+    if (path_of s i =? 2)%N && (req_deadline (s_w s) i <=? now (s_w s))%N
+    then (* the inline pass already finds the budget gone *)
+      mk_sworld (s_w s) (set_place e i PlGone) (s_path s)
+    else dispatch s1 i.
+
+(* requests that ended give their worker / slab back; a freed worker takes the queue head *)
+Fixpoint reap (idx : list nat) (s : sworld) : sworld :=
+  match idx with
+  | [] => s
+  | i :: r =>
+      let e := s_e s in
+      let s' :=
+        if req_ended (s_w s) i then
+          match place_of e i with
+          | PlWorker => mk_sworld (s_w s) (set_place (mk_engine (S (e_free e)) (e_queue e) (e_qcap e) (pred (e_leased e)) (e_cap e) (e_place e)) i PlGone) (s_path s)
+          | PlOverflow => mk_sworld (s_w s) (set_place (mk_engine (e_free e) (e_queue e) (e_qcap e) (pred (e_leased e)) (e_cap e) (e_place e)) i PlGone) (s_path s)
+          | PlOwn => mk_sworld (s_w s) (set_place e i PlGone) (s_path s)
+          | _ => s
+          end
+        else s in
+      reap r s'
+  end.
+
+Definition take_queued (s : sworld) : option sworld :=
+  let e := s_e s in
+  match e_free e, e_queue e with
+  | S f, j :: rest =>
+      Some (start_serving (mk_sworld (s_w s) (mk_engine f rest (e_qcap e) (e_leased e) (e_cap e) (e_place e)) (s_path s)) j PlWorker)
+  | _, _ => None
+  end.
+
+Fixpoint s_settle (fuel : nat) (s : sworld) : sworld :=
+  match fuel with
+  | O => s
+  | S f =>
+      let w1 := quiesce (qfuel (s_w s)) (s_w s) in
+      let s1 := reap (seq 0 (length (reqs w1))) (mk_sworld w1 (s_e s) (s_path s)) in
+      match take_queued s1 with
+      | Some s2 => s_settle f s2
+      | None => s1
+      end
+  end.
+Definition sfuel (s : sworld) : nat := (2 * S (length (reqs (s_w s))))%nat.
+
+Fixpoint s_advance (fuel : nat) (s : sworld) (t : N) : sworld :=
+  match fuel with
+  | O => s
+  | S f =>
+      match next_timer (s_w s) t with
+      | Some t1 =>
+          let s1 := mk_sworld (fire_only (s_w s) t1) (s_e s) (s_path s) in
+          s_advance f (s_settle (sfuel s1) s1) t
+      | None =>
+          let w := s_w s in
+          mk_sworld (mk_world t (wwg w) (born w) (st_pos w) (st_fq w) (st_fz w) (reqs w) (calls w)) (s_e s) (s_path s)
+      end
+  end.
+
+Definition sevent_step (s : sworld) (e : wevent) : sworld :=
+  match e with
+  | EArrive i => let s1 := s_arrive s i in s_settle (sfuel s1) s1
+  | ECancel i => let s1 := mk_sworld (set_req (s_w s) i (set_ctx CCanceled)) (s_e s) (s_path s) in s_settle (sfuel s1) s1
+  | ERelease i => let s1 := mk_sworld (set_req (s_w s) i set_released) (s_e s) (s_path s) in s_settle (sfuel s1) s1
+  | EAdvance t => s_advance 64 s t
+  | EZoneFail => s
+  end.
+
+Definition sworld0 (rs : list preq) (paths : list N) (workers qcap cap : nat) : sworld :=
+  mk_sworld (world0 rs) (mk_engine workers [] qcap 0 cap (repeat PlNone (length rs))) paths.
 
 (* ------------------------------------------------------------------ *)
 (** * 5. LazyDeadline / EffectiveError, as a function of the clock *)
